@@ -46,7 +46,7 @@ def known_match(known, prop, unit, ob):
 
 
 def attributed(ob, prop, unit):
-    if ob["kind"] == "cover":
+    if ob["kind"] in ("cover", "excluded"):
         return False
     if ob["kind"] == "safety":
         return True
@@ -161,7 +161,8 @@ def main(argv):
         mine = [o for o in r["obligations"] if attributed(o, prop, u)]
         row["obligations"] = len(mine)
         row["discharged"] = sum(1 for o in mine if o["status"] == "SUCCESS")
-        row["all_obligations_of_unit"] = sum(1 for o in r["obligations"] if o["kind"] != "cover")
+        row["all_obligations_of_unit"] = sum(1 for o in r["obligations"] if o["kind"] not in ("cover", "excluded"))
+        row["excluded_null_pointer_relations"] = sum(1 for o in r["obligations"] if o["kind"] == "excluded")
         cov = [o for o in r["obligations"] if o["kind"] == "cover"]
         row["covers_reached"] = len(cov)
         covers += len(cov)
@@ -176,6 +177,10 @@ def main(argv):
                 samples.append({"unit": u["name"], "obligation": o["id"], "tags": o["tags"],
                                 "text": o["desc"][:160], "status": o["status"]})
         for o in mine:
+            if o["status"] not in ("SUCCESS", "FAILURE"):
+                row.setdefault("undecided_after_failure", 0)
+                row["undecided_after_failure"] += 1
+        for o in mine:
             if o["status"] == "FAILURE":
                 k = known_match(known, prop, u, o)
                 if k:
@@ -189,7 +194,7 @@ def main(argv):
     vio_lines = []
     seen = set()
     for u, o in violations:
-        key = (u["name"], tuple(o["tags"]), o["desc"]) if o["kind"] == "tagged" else (u["name"], o["id"])
+        key = (u["name"], tuple(o["tags"]), o["desc"]) if o["kind"] == "tagged" else (u["name"], o.get("function"), o.get("line"))
         if key in seen:
             continue
         seen.add(key)
